@@ -13,7 +13,7 @@ Translation of the input conventions (definitions in `Lemmas/LearnCallback.lean`
   (which does not exist in the code) is of this form; the update-related fields of `Learn.Cfg` have no counterpart;
 * `opsOf dones g0 trace` — `Callback` receives a stop request as the handler's answer to `step` and episode ends as a
   function `dones g` of the global environment-step index; `Learn` receives both with each `env` input: the `i`-th
-  `step` call with answer `ok` becomes `env (!ok) (dones (g0+i)) none`;
+  `step` call with answer `ok` becomes `env (!ok) (dones (g0+i)) []`;
 * `projC` / `projE` — the two projections to `trainingStart n / rolloutStart / step n / rolloutEnd / trainingEnd`
   (`update_locals` calls, progress updates and `train()` events are not callback-visible events and are dropped).
 Since the stop answers are read off the `Callback` machine's own log, the agreement holds for EVERY handler `h`
@@ -76,7 +76,7 @@ example :
     projC (LS.runN (cbCfg exPPO (fun _ => 0)) (stopAt [15]) 100 (LS.setup 24 12 12 5 false)).trace =
       [.trainingStart 24, .rolloutStart, .step 26, .step 28, .step 30, .trainingEnd] ∧
     projE (run exPPO (run exPPO State.init (.learn 20 true :: quiet 12)).1
-        [.learn 5 false, .env false 0 none, .env false 0 none, .env true 0 none]).2 =
+        [.learn 5 false, .env false 0 [], .env false 0 [], .env true 0 []]).2 =
       [.trainingStart 24, .rolloutStart, .step 26, .step 28, .step 30, .trainingEnd] := by
   decide +kernel
 
@@ -95,7 +95,7 @@ example :
 /-- DQN, 4 envs, `train_freq = 2`: `learn(10)` ends at 16 in both machines -/
 example :
     projC (LS.runN (cbCfg exDQN (fun _ => 4)) (stopAt []) 100 (LS.setup 0 0 0 10 true)).trace =
-      projE (run exDQN State.init (.learn 10 true :: List.replicate 4 (.env false 4 none))).2 ∧
+      projE (run exDQN State.init (.learn 10 true :: List.replicate 4 (.env false 4 []))).2 ∧
     (LS.runN (cbCfg exDQN (fun _ => 4)) (stopAt []) 100 (LS.setup 0 0 0 10 true)).num = 16 := by
   decide +kernel
 
